@@ -617,6 +617,22 @@ def _run_local(case):
                 if list(ps.code) != list(range(len(s))) or len(ps.get_alphabet()) != len(s):
                     return "ok positional-code-wrong"
                 return f"ok {len(ps)} {a.show(rec.symbols)}"
+        if op in ("s_setseq", "s_setseqm"):
+            i, j = int(w[1]), int(w[-1])
+            if i >= len(regs) or j >= len(regs):
+                return "ERR:noreg"
+            (s1, a1), (s2, a2) = regs[i], regs[j]
+            if op == "s_setseq":
+                lo = None if w[2] == "-" else int(w[2])
+                hi = None if w[3] == "-" else int(w[3])
+                index = slice(lo, hi)
+            else:
+                index = np.array([c == "1" for c in (w[2] if w[2] != "_" else "")], dtype=bool)
+
+            def f():
+                s1[index] = s2
+            guarded(s1, f, others=() if s1 is s2 else (s2,))
+            return "ok " + _seq_tokens_safe((s1, a1))
         if op in ("s_add", "s_eq", "s_astype"):
             i, j = int(w[1]), int(w[2])
             if i >= len(regs) or j >= len(regs):
@@ -1435,6 +1451,64 @@ def _case_alias(rng):
                                                 "how": rng.choice(["slice", "revv", "slice"])}}
 
 
+def _case_setseq(rng):
+    """slice (and mask) assignment whose VALUE is a Sequence over the same alphabet, an alphabet the target's extends, an
+    alphabet that extends the target's, or a foreign alphabet — with symbols inside and outside the target alphabet"""
+    mode = rng.choice(["nuc", "nuc", "gen", "gen", "prot-nuc"])
+    ops = []
+    n = rng.randint(2, 7)
+    if mode == "nuc":
+        ops.append("s_nuc " + _ints(ord(rng.choice("ACGT")) for _ in range(n)))                                   # 0 unambiguous target
+        ops.append("s_nuc " + _ints(ord(rng.choice("ACGTN")) for _ in range(n)) + ",78")                          # 1 ambiguous
+        ops.append("s_nuc2 T " + _ints(ord(rng.choice("ACGT")) for _ in range(rng.randint(1, 3))))                # 2 ambiguous alphabet, symbols inside the target's
+        ops.append("s_nuc " + _ints(ord(rng.choice("ACGT")) for _ in range(rng.randint(1, 3))))                    # 3 same alphabet
+        ops.append("s_nuc2 T " + _ints(ord(rng.choice("NRYK")) for _ in range(rng.randint(1, 3))))                # 4 symbols outside
+        nreg = 5
+    elif mode == "prot-nuc":
+        ops.append("s_nuc " + _ints(ord(rng.choice("ACGT")) for _ in range(n)))
+        ops.append("s_prot " + _ints(ord(rng.choice("ACGT")) for _ in range(rng.randint(1, 3))))                   # foreign alphabet, symbols inside
+        ops.append("s_prot " + _ints(ord(rng.choice("WYKL")) for _ in range(rng.randint(1, 3))))                   # foreign alphabet, symbols outside
+        ops.append("s_new L:84,71,67,65 " + _ints(ord(rng.choice("ACGT")) for _ in range(rng.randint(1, 3))))      # permuted alphabet
+        nreg = 4
+    else:
+        spec = _alph_spec(rng, small=True)
+        al = _spec_syms(spec)
+        pool = [t for t in ([str(p) for p in PRINTABLE] if spec.startswith("L:") else GEN_TOKENS) if t not in al]
+        extra = rng.sample(pool, min(2, len(pool)))
+        big = spec[:2] + _toks(al + extra)
+        perm = list(al + extra)
+        rng.shuffle(perm)
+        foreign = spec[:2] + _toks(perm)
+        ops.append(f"s_new {spec} {_toks(rng.choice(al) for _ in range(n))}")                                      # 0 target
+        ops.append(f"s_new {big} {_toks(rng.choice(al) for _ in range(rng.randint(1, 3)))}")                       # 1 extends the target's, symbols inside
+        ops.append(f"s_new {big} {_toks(rng.choice(al + extra) for _ in range(rng.randint(1, 3)))}")               # 2 maybe outside
+        ops.append(f"s_new {foreign} {_toks(rng.choice(al) for _ in range(rng.randint(1, 3)))}")                   # 3 foreign order, symbols inside
+        ops.append(f"s_new {spec[:2] + _toks(al[:max(1, len(al) - 1)])} {_toks(al[0] for _ in range(rng.randint(1, 2)))}")   # 4 the target's extends it
+        ops.append(f"s_new {big} {_toks(rng.choice(al + extra) for _ in range(n + 2))}")                           # 5 bigger target
+        nreg = 6
+    for _ in range(rng.randint(4, 8)):
+        i = rng.choice([0, 0, 0, rng.randrange(nreg)])
+        j = rng.randrange(nreg)
+        if rng.random() < 0.8:
+            a = rng.randint(0, n)
+            w = rng.choice([1, 1, 2, 3, 0])
+            ops += [f"s_setseq {i} {a} {min(n + 2, a + w)} {j}", f"s_str {i}", f"s_valid {i}", f"s_str {j}"]
+        else:
+            ops += [f"s_setseq {i} - - {j}", f"s_str {i}"]
+    return {"kind": "sequence-setseq", "ops": ops}
+
+
+def _case_setseq_mask(rng):
+    """the same with a boolean mask as index — oracle only"""
+    n = rng.randint(2, 6)
+    ops = ["s_nuc " + _ints(ord(rng.choice("ACGT")) for _ in range(n)), "s_nuc2 T " + _ints(ord(rng.choice("ACGT")) for _ in range(2)),
+           "s_nuc2 T 78,82", "s_prot 65,67"]
+    for _ in range(4):
+        bits = [rng.choice("01") for _ in range(n)]
+        ops += [f"s_setseqm 0 {''.join(bits)} {rng.randrange(1, 4)}", "s_str 0"]
+    return {"kind": "sequence-setseq-mask", "check_ops": ops}
+
+
 def _case_eq(rng):
     """`==` between sequences whose code arrays coincide although alphabet / class / symbols differ"""
     ops = []
@@ -1640,7 +1714,7 @@ def _case_codon(rng, table_id=None):
 def cases(rng, tier):
     scale = 1 if tier == "quick" else 12
     plan = [(_case_alphabet, 110), (_case_bytes, 16), (_case_newalph, 12), (_case_mapper, 50), (_case_mapper_big, 12),
-            (_case_sequence, 130), (_case_add, 30), (_case_eq, 40), (_case_pickle, 40), (_case_setcode_full, 30), (_case_spellings, 50), (_case_seq_api, 50), (_case_index_extra, 15), (_case_kmer_api, 30), (_case_codon_api, 30), (_case_translate_invalid, 30), (_case_kmer_overflow, 8), (_case_dup, 25), (_case_alias, 15), (_case_kmer, 110), (_case_kmer_illegal, 20), (_case_codon, 110), (_case_derive, 50)]
+            (_case_sequence, 130), (_case_add, 30), (_case_eq, 40), (_case_pickle, 40), (_case_setcode_full, 30), (_case_spellings, 50), (_case_seq_api, 50), (_case_index_extra, 15), (_case_kmer_api, 30), (_case_codon_api, 30), (_case_translate_invalid, 30), (_case_kmer_overflow, 8), (_case_dup, 25), (_case_alias, 15), (_case_setseq, 50), (_case_setseq_mask, 10), (_case_kmer, 110), (_case_kmer_illegal, 20), (_case_codon, 110), (_case_derive, 50)]
     for fn, cnt in plan:
         for _ in range(cnt * scale):
             yield fn(rng)
@@ -1695,6 +1769,8 @@ def corpus():
         {"kind": "sequence-setcode-full", "ops": ["s_new R:256:256:1:0 i0,i1,i255", "s_setcode 0 i8 -1,0", "s_str 0", "s_setcode 0 i8 -128", "s_str 0", "s_setcode 0 u8 255,0", "s_str 0",
                                                   "s_setarr 0 0 1 i8 -1", "s_str 0", "s_new R:65536:65536:1:0 i0,i65535", "s_setcode 1 i16 -1,5", "s_str 1",
                                                   "s_setcode 1 i8 -1", "s_str 1", "s_setcode 1 u8 255", "s_str 1", "s_setcode 1 u16 65535", "s_str 1"]},
+        {"kind": "sequence-setseq", "ops": ["s_nuc 65,67,71,84", "s_nuc 78,78", "s_setseq 0 1 3 1", "s_str 0", "s_valid 0", "s_nuc2 T 71,71", "s_setseq 0 1 3 2", "s_str 0",
+                                            "s_prot 87,89", "s_setseq 0 0 2 3", "s_str 0", "s_prot 67,68", "s_setseq 0 0 2 4", "s_str 0", "s_prot 67,67", "s_setseq 0 0 2 5", "s_str 0"]},
         {"kind": "sequence-pickle", "ops": ["s_nuc 65,67,78,82", "s_pickle 0", "s_copy 1", "s_str 2", "s_eq 2 0", "s_rev 1", "s_str 3", "s_compl 1", "s_str 4",
                                             "s_slice 1 1 -", "s_str 5", "s_add 1 0", "s_str 6", "s_deepcopy 0", "s_copy 7", "s_str 8", "s_valid 8"]},
         {"kind": "codon-names", "ops": ["c_loadname Flatworm~Mitochondrial", "c_load 9", "c_loadname Echinoderm~Mitochondrial", "c_loadname Alternative~Flatworm~Mitochondrial",
@@ -2034,6 +2110,47 @@ def reference(ops):
                 exp.append(("eq", "ERR:noreg"))
                 continue
             r = regs[idx[0]]
+            if op in ("s_setseq", "s_setseqm"):
+                j = int(w[-1])
+                if j >= len(regs):
+                    exp.append(("eq", "ERR:noreg"))
+                    continue
+                o = regs[j]
+                if r["syms"] is None or o["syms"] is None:
+                    r["syms"] = None
+                    r["maybe_unchanged"] = True
+                    r.pop("codes", None)
+                    exp.append(None)
+                    continue
+                item = list(o["syms"])
+                if op == "s_setseq":
+                    lo = None if w[2] == "-" else int(w[2])
+                    hi = None if w[3] == "-" else int(w[3])
+                    positions = list(range(len(r["syms"])))[lo:hi]
+                else:
+                    bits = w[2] if w[2] != "_" else ""
+                    if len(bits) != len(r["syms"]):
+                        exp.append(("err", {"IndexError"} | ({"AlphabetError"} if not all(t in r["alph"] for t in item) else set())))
+                        continue
+                    positions = [p for p, c in enumerate(bits) if c == "1"]
+                # assignment of a Sequence is assignment of its symbols
+                if not all(t in r["alph"] for t in item):
+                    exp.append(("err", {"AlphabetError"}))
+                elif len(item) == len(positions):
+                    for p, t in zip(positions, item):
+                        r["syms"][p] = t
+                    exp.append(("eq", "ok " + _toks(r["syms"])))
+                elif len(item) == 1:
+                    cand = list(r["syms"])
+                    for p in positions:
+                        cand[p] = item[0]
+                    exp.append(("oneof", {"ok " + _toks(cand), "ERR:ValueError"}))
+                    if positions:
+                        r["syms"] = None
+                        r["maybe_unchanged"] = True
+                else:
+                    exp.append(("err", {"ValueError"}))
+                continue
             if op == "s_astype":
                 j = int(w[2])
                 if j >= len(regs):
